@@ -428,6 +428,26 @@ where
                 proofverify::<CS>(h, &pk, &p, hdr.as_deref(), None, Some(&dm), Some(&d));
                 let o = proofverify::<CS>(h, &pk, &p, hdr.as_deref(), ph.as_deref(), Some(&[b"x".to_vec()]), Some(&[l + 3]));
                 h.expect(!o.is_panic() && !o.is_ok(), "C10.bad_indexes", "proof_verify did not refuse an out-of-range disclosed index", &[h.last()]);
+                // argument SHAPES the draft refuses (len(disclosed messages) != len(disclosed indexes)): more messages
+                // than indexes, fewer, messages without an index list, an index list without messages
+                let mut surplus = dm.clone();
+                surplus.push(b"surplus".to_vec());
+                let shapes: Vec<(&str, Option<Vec<Vec<u8>>>, Option<Vec<usize>>)> = vec![
+                    ("surplus_message", Some(surplus.clone()), Some(d.clone())),
+                    ("surplus_message_no_index_list", Some(surplus), None),
+                    ("message_missing", Some(dm[..dm.len().saturating_sub(1)].to_vec()), Some(d.clone())),
+                    ("indexes_without_messages", None, Some(d.clone())),
+                ];
+                for (nm, ms, ix) in shapes {
+                    // (with nothing disclosed the last two shapes ARE the honest call)
+                    if d.is_empty() && (nm == "message_missing" || nm == "indexes_without_messages") { continue; }
+                    let o = proofverify::<CS>(h, &pk, &p, hdr.as_deref(), ph.as_deref(), ms.as_deref(), ix.as_deref());
+                    h.stat(&format!("C10.shape.{}", nm));
+                    h.expect(!o.is_panic() && !o.is_ok(), "C10.bad_shape", &format!("proof_verify accepted a disclosed-message list that does not match the index list ({})", nm), &[h.last()]);
+                }
+                // a plain proof shown to the blind verifier with the optional arguments left out
+                let o = blindproofverify::<CS>(h, &pk, &p, hdr.as_deref(), ph.as_deref(), None, Some(&dm), None, Some(&d), None);
+                h.expect(!o.is_panic() && !o.is_ok(), "C10.plain_proof_blind_verifier_defaults", "blind_proof_verify with L and the committed lists omitted accepted a plain proof", &[h.last()]);
             }
             let cm = rand_msgs(h, l % 3);
             if let Some(run) = honest_issue::<CS>(h, &sk, &pk, hdr.as_deref(), &msgs, &cm, true) {
@@ -457,16 +477,42 @@ where
                 let mut bl = run.blind;
                 bl[31] ^= 2;
                 verifyblind::<CS>(h, &pk, &run.sig, hdr.as_deref(), Some(&msgs), Some(&cm), Some(&bl));
+                // the blind factor left out although a commitment was used: refused (the factor is never 0)
+                let o = verifyblind::<CS>(h, &pk, &run.sig, hdr.as_deref(), Some(&msgs), Some(&cm), None);
+                h.expect(!o.is_panic() && !o.is_ok(), "C10.blind_factor_omitted", "verify_blind_sign without the blind factor accepted a signature issued over a commitment", &[h.last()]);
+                // an omitted signer-message count is the count 0: the same decision, on an honest blind proof that
+                // discloses nothing
+                if let Some(bp0) = honest_blind_proof::<CS>(h, &pk, &run, hdr.as_deref(), ph.as_deref(), &msgs, &cm, &[], &[], true) {
+                    let a = blindproofverify::<CS>(h, &pk, &bp0, hdr.as_deref(), ph.as_deref(), None, None, None, None, None);
+                    let aid = h.last();
+                    let b = blindproofverify::<CS>(h, &pk, &bp0, hdr.as_deref(), ph.as_deref(), Some(0), Some(&[]), Some(&[]), Some(&[]), Some(&[]));
+                    h.expect(a.class() == b.class(), "C10.L_omitted_is_zero", "blind_proof_verify decides differently for an omitted signer-message count and for the count 0", &[aid, h.last()]);
+                    h.expect(a.is_ok() == (l == 0), "C10.L_omitted_decision", "blind_proof_verify with the signer-message count omitted: wrong decision", &[aid]);
+                }
             }
             if l > 0 {
                 update::<CS>(h, &sig, &sk, &msgs[l - 1], b"updated", l - 1, l);
             }
+            // position one past the end, and the count one too small: refused
+            let o = update::<CS>(h, &sig, &sk, if l > 0 { &msgs[l - 1] } else { b"" }, b"updated", l, l);
+            h.expect(o.is_err(), "C10.update_past_end", "update_signature accepted the position one past the end", &[h.last()]);
             // "no commitment" given as None and as the empty octet string: the same (deterministic) signature
             let b_none = blindsign::<CS>(h, &sk, &pk, None, hdr.as_deref(), Some(&msgs));
             let n_id = h.last();
             let b_empty = blindsign::<CS>(h, &sk, &pk, Some(&[]), hdr.as_deref(), Some(&msgs));
             let same = match (b_none.ok(), b_empty.ok()) { (Some(a), Some(b)) => a.to_bytes() == b.to_bytes(), _ => false };
             h.expect(same, "C10.no_commitment_default", "blind_sign with an absent commitment and with the empty octet string differ", &[n_id, h.last()]);
+            // a signature issued WITHOUT a commitment: verifies with no committed messages (absent or empty list, no
+            // blind factor) and with nothing else
+            if let Some(bs) = blindsign::<CS>(h, &sk, &pk, None, hdr.as_deref(), Some(&msgs)).ok() {
+                let bsig = bs.bbsPlusBlindSignature().clone();
+                let o = verifyblind::<CS>(h, &pk, &bsig, hdr.as_deref(), Some(&msgs), None, None);
+                h.expect(o.is_ok(), "C10.no_commitment_verify", "a blind signature issued without a commitment does not verify", &[h.last()]);
+                let o = verifyblind::<CS>(h, &pk, &bsig, hdr.as_deref(), Some(&msgs), Some(&[]), None);
+                h.expect(o.is_ok(), "C10.no_commitment_verify", "a blind signature issued without a commitment does not verify with an empty committed list", &[h.last()]);
+                let o = verifyblind::<CS>(h, &pk, &bsig, hdr.as_deref(), Some(&msgs), Some(&[b"never committed".to_vec()]), None);
+                h.expect(!o.is_panic() && !o.is_ok(), "C10.no_commitment_extra_committed", "a blind signature issued without a commitment verifies with a committed message that was never signed", &[h.last()]);
+            }
         }
     }
     let _ = rand_tape(h, 0);
@@ -570,6 +616,14 @@ where
         if let Some(p) = &p {
             let v = blindproofverify::<CS>(h, &pk, p, hdr.as_deref(), ph.as_deref(), Some(l), Some(&dm), None, Some(&d), None);
             h.expect(!v.is_ok(), "C11.proof_plain_to_blind", "plain proof verifies through the blind interface", &[h.last()]);
+            // the same with every optional argument of the blind verifier left out / empty (L omitted = 0)
+            for (nm, ll, e1, e2) in [("L_omitted", None, None, None), ("L_omitted_empty_lists", None, Some(&[][..]), Some(&[][..])), ("L_zero", Some(0usize), None, None)] {
+                let e1v: Option<Vec<Vec<u8>>> = e1.map(|_: &[u8]| vec![]);
+                let e2v: Option<Vec<usize>> = e2.map(|_: &[u8]| vec![]);
+                let v = blindproofverify::<CS>(h, &pk, p, hdr.as_deref(), ph.as_deref(), ll, Some(&dm), e1v.as_deref(), Some(&d), e2v.as_deref());
+                h.stat(&format!("C11.proof_plain_to_blind.{}", nm));
+                h.expect(!v.is_ok(), "C11.proof_plain_to_blind_defaults", &format!("plain proof verifies through the blind interface when optional arguments are left out ({})", nm), &[h.last()]);
+            }
         }
         if let Some(run) = &run {
             let all = [msgs.clone(), cmsgs.clone()].concat();
